@@ -262,9 +262,14 @@ Definition s_vaargs := bytes "__VA_ARGS__".
 Definition unimplemented : list str :=
   List.map bytes ["if"%string; "ifdef"%string; "ifndef"%string; "elif"%string; "endif"%string; "include"%string; "error"%string].
 
-Definition new_param (t : token) : res param :=
+(* since /repo 'fix: diagnose duplicate macro parameter names' and 'fix: diagnose __VA_ARGS__ as a macro
+   parameter name' the name is compared with the parameters read so far (`acc`) *)
+Definition new_param (acc : list param) (t : token) : res param :=
   if is_kind KEllipsis t then Ok (mkParam s_vaargs false false true)
-  else if is_kind KIdent t then Ok (mkParam (lit t) false false false)
+  else if is_kind KIdent t then
+    if str_eqb (lit t) s_vaargs then Err EParamList
+    else if existsb (fun q => str_eqb (pname q) (lit t)) acc then Err EParamList
+    else Ok (mkParam (lit t) false false false)
   else Err EParamList.
 
 (* the parameter loop of define(): `l` starts after the '('.  Returns parameters and the rest. *)
@@ -276,7 +281,7 @@ Fixpoint params_loop (l : list token) (acc : list param) : res (list param * lis
       else
         match acc with
         | [] =>
-            match new_param t with
+            match new_param [] t with
             | Ok p => params_loop r [p]
             | Err e => Err e
             | Fuel => Fuel
@@ -288,7 +293,7 @@ Fixpoint params_loop (l : list token) (acc : list param) : res (list param * lis
               match r with
               | [] => Err EParamList
               | t2 :: r2 =>
-                  match new_param t2 with
+                  match new_param acc t2 with
                   | Ok p => params_loop r2 (p :: acc)
                   | Err e => Err e
                   | Fuel => Fuel
